@@ -4,7 +4,7 @@ From Coq Require Import List NArith Bool.
 From SV Require Import Reconciler.Retries Reconciler.Model Reconciler.RetriesProofs Reconciler.CommitProofs
   Reconciler.RoundProofs Reconciler.CoverProofs Reconciler.StepProofs Reconciler.Refuted
   Reconciler.TableWf Reconciler.StreamProofs Reconciler.PhaseProofs Reconciler.BatchProofs Reconciler.RoundInv Reconciler.Runs Reconciler.Progress
-  Reconciler.Converge Reconciler.ItemsInv.
+  Reconciler.Converge Reconciler.ItemsInv Reconciler.Target.
 Import ListNotations.
 Open Scope N_scope.
 
@@ -128,9 +128,8 @@ Print Assumptions C14_quiescent_is_reconciled.
    answers ok and no user write is pending, each round decreases (#pending or deleted changes ahead of the
    cursor) + (#retry items) by min(roundSize, that number), one more round skips the Done objects the commits
    wrote — gives quiescence after ceil((pending + items) / roundSize) + 1 rounds.
-   STILL MISSING: target = table (the last successful operation per key), which needs a ghost linking Done
-   statuses to e_target; it is covered on every check by the exact correspondence of the `final` line
-   (P:C14) and the !BAD:C14 oracles. *)
+   Target = table (the last successful operation per key) is proved too: C14_target_equals_table,
+   C14_last_operation_matches_table, C14_converges_to_target below (Target.v). *)
 Theorem C14_converges_partial : forall cf st, reach cf st ->
   quiescent (fst st) (snd st) -> reconciled (fst st).
 Proof. exact converges_partial. Qed.
@@ -282,3 +281,65 @@ Theorem C14_converges_needs_positive_round_size_refuted :
   forall n, ~ quiescent (fst (iter_round rs0_cf n (rs0_e, rs0_s))) (snd (iter_round rs0_cf n (rs0_e, rs0_s))).
 Proof. exact converges_needs_positive_round_size_refuted. Qed.
 Print Assumptions C14_converges_needs_positive_round_size_refuted.
+
+(* ------------------------------------------------------------------ target = table (Target.v) *)
+(* e_target is the simulated target of the harness: a successful Update / UpdateBatch entry of (pk, version)
+   sets target[pk] := version, a successful Delete / DeleteBatch entry removes pk. In every reachable state it
+   is the call log replayed (no ghost): *)
+Theorem C14_target_is_call_log : forall cf st, reach cf st -> e_target (fst st) = replay (e_calls (fst st)).
+Proof. exact reach_logged. Qed.
+Print Assumptions C14_target_is_call_log.
+
+(* the invariant behind it (tinv, every reachable state): a key with no work left — nothing of it ahead of the
+   cursor that is a deletion or Pending/Refreshing, no retry item — has target[pk] = payload of its live
+   object, and no entry if it is deleted; delete retries belong to the current deletion of their key *)
+Theorem C14_reach_target_inv : forall cf st, reach cf st ->
+  tinv (e_tab (fst st)) (k_cursor (snd st)) [] (k_ret (snd st)) (e_target (fst st)) /\
+  del_items (e_tab (fst st)) (k_cursor (snd st)) (k_ret (snd st)).
+Proof. exact reach_target. Qed.
+Print Assumptions C14_reach_target_inv.
+
+(* in every reachable quiescent state, for every key of the table: target = payload version of the live
+   object (pay (Live o _) = Some (o_ver o)), no target entry for a deleted key (pay (Dead _ _) = None) *)
+Theorem C14_target_equals_table : forall cf st, reach cf st -> quiescent (fst st) (snd st) ->
+  forall k sl, slot_of (e_tab (fst st)) k = Some sl -> aget k (e_target (fst st)) = pay sl.
+Proof. exact target_equals_table. Qed.
+Print Assumptions C14_target_equals_table.
+
+(* the same on the call log: the LAST successful Update/Delete (or batch entry) of the key of a live object
+   is an Update carrying its current payload version; of a deleted key, a Delete *)
+Theorem C14_last_operation_matches_table : forall cf st, reach cf st -> quiescent (fst st) (snd st) ->
+  forall k sl, slot_of (e_tab (fst st)) k = Some sl ->
+    exists c, last_op k (e_calls (fst st)) = Some c /\ cl_ok c = true /\ cl_pk c = k /\
+      match sl with
+      | Live o _ => is_upd_op (cl_op c) = true /\ cl_ver c = o_ver o
+      | Dead _ _ => is_del_op (cl_op c) = true
+      end.
+Proof. exact last_operation_matches_table. Qed.
+Print Assumptions C14_last_operation_matches_table.
+
+(* property C14 for runs, complete: from any reachable state, once operations stop failing, no user write is
+   pending and the queued retries are due, within ceil((pending + items)/roundSize) + 1 rounds — and for ever
+   after — the reconciler is quiescent, every live object is Done, every deletion was Delete()d successfully,
+   and the target equals the table *)
+Theorem C14_converges_to_target : forall cf e s, reach cf (e, s) -> 0 < cf_rs cf -> calm e ->
+  (forall it, In it (q_items (k_ret s)) -> ri_inq it = true -> ri_at it <= e_now e) ->
+  exists n, (n <= bound cf e s)%nat /\
+    forall m, (n <= m)%nat ->
+      quiescent (fst (iter_round cf m (e, s))) (snd (iter_round cf m (e, s))) /\
+      reconciled (fst (iter_round cf m (e, s))) /\
+      (forall k sl, slot_of (e_tab (fst (iter_round cf m (e, s)))) k = Some sl ->
+         aget k (e_target (fst (iter_round cf m (e, s)))) = pay sl).
+Proof. exact converges_to_target. Qed.
+Print Assumptions C14_converges_to_target.
+
+(* non-vacuity: a reachable quiescent state with three live keys and a deleted one; the theorem gives the
+   target entries *)
+Example C14_target_equals_table_nonvacuous :
+  reach Converge.ex_cf ex_final /\ quiescent (fst ex_final) (snd ex_final) /\
+  live_objs (e_tab (fst ex_final)) = [(1, 1, 2); (3, 3, 2); (4, 4, 2)] /\
+  slot_of (e_tab (fst ex_final)) 2 = Some (Dead (mkObj 2 2 Done 5) 6) /\
+  aget 1 (e_target (fst ex_final)) = Some 1 /\ aget 2 (e_target (fst ex_final)) = None /\
+  aget 3 (e_target (fst ex_final)) = Some 3 /\ aget 4 (e_target (fst ex_final)) = Some 4.
+Proof. exact target_equals_table_nonvacuous. Qed.
+Print Assumptions C14_target_equals_table_nonvacuous.
